@@ -173,3 +173,45 @@ Example blake2b512_abc :
    x7d;x87;xc5;x39;x2a;xab;x79;x2d;xc2;x52;xd5;xde;x45;x33;xcc;x95;
    x18;xd3;x8a;xa8;xdb;xf1;x92;x5a;xb9;x23;x86;xed;xd4;x00;x99;x23].
 Proof. vm_compute. reflexivity. Qed.
+
+(* BLAKE2b-256 vectors; reference values from python3 hashlib.blake2b(msg, digest_size=32) *)
+Example blake2b256_abc :
+  blake2b256 [x61; x62; x63] =
+  [xbd;xdd;x81;x3c;x63;x42;x39;x72;x31;x71;xef;x3f;xee;x98;x57;x9b;
+   x94;x96;x4e;x3b;xb1;xcb;x3e;x42;x72;x62;xc8;xc0;x68;xd5;x23;x19].
+Proof. vm_compute. reflexivity. Qed.
+
+Example blake2b256_empty :
+  blake2b256 [] =
+  [x0e;x57;x51;xc0;x26;xe5;x43;xb2;xe8;xab;x2e;xb0;x60;x99;xda;xa1;
+   xd1;xe5;xdf;x47;x77;x8f;x77;x87;xfa;xab;x45;xcd;xf1;x2f;xe3;xa8].
+Proof. vm_compute. reflexivity. Qed.
+
+(* bytes 0, 1, 2, ... (mod 256) *)
+Definition iota_bytes (n : nat) : list byte := map (fun i => n2b (N.of_nat i)) (seq 0 n).
+
+(* exactly one full block: the final block is full and still finalised *)
+Example blake2b256_iota128 :
+  blake2b256 (iota_bytes 128) =
+  [xc3;x58;x2f;x71;xeb;xb2;xbe;x66;xfa;x5d;xd7;x50;xf8;x0b;xaa;xe9;
+   x75;x54;xf3;xb0;x15;x66;x3c;x8b;xe3;x77;xcf;xcb;x24;x88;xc1;xd1].
+Proof. vm_compute. reflexivity. Qed.
+
+(* one full block plus one byte: two compressions, counter 128 then 129 *)
+Example blake2b256_iota129 :
+  blake2b256 (iota_bytes 129) =
+  [xf7;xf3;xc4;x6b;xa2;x56;x4f;xf4;xc4;xc1;x62;xda;x1f;x5b;x60;x5f;
+   x9f;x1c;x4a;xa6;xa2;x06;x52;xa9;xf9;xa3;x37;xc1;xa2;xf5;xb9;xc9].
+Proof. vm_compute. reflexivity. Qed.
+
+Example blake2b256_iota300 :
+  blake2b256 (iota_bytes 300) =
+  [x3a;x48;x6e;x3f;xe3;xee;x41;x48;x53;x00;x02;x69;xac;x02;x00;x30;
+   xae;xef;x74;x8c;xb0;x5c;xd6;x2b;xa8;x59;x39;xec;x29;x8e;xf2;x5c].
+Proof. vm_compute. reflexivity. Qed.
+
+(* the digest length is a parameter of the hash, not a truncation: 20-byte digest *)
+Example blake2b160_iota200 :
+  blake2b 20 (iota_bytes 200) =
+  [xb8;x3a;x57;x33;xce;x63;xf2;xdd;x82;x66;xea;x8e;xc9;x33;x33;xd7;x93;x51;x42;xcf].
+Proof. vm_compute. reflexivity. Qed.
